@@ -653,6 +653,39 @@ def directed():
     return out
 
 
+def uniq_family(r, count):
+    """duplicate removal aimed at the join loop: one prefix (sometimes two), a covering range and several separate
+    entries inside, across and outside it, in any order; then uniq, count and a full walk"""
+    out = []
+    for _ in range(count):
+        pre = r.choice([b"n", b"foo", b"r1-", b"x"])
+        w = r.choice([1, 2, 2, 3])
+        lo = r.range(0, 6)
+        hi = lo + r.range(5, 24)
+        pieces = [(pre, lo, hi)]
+        for _k in range(r.range(2, 6)):
+            a = r.weighted([(r.range(lo, hi), 6), (r.range(max(0, lo - 3), hi + 4), 2)])
+            b = a + r.weighted([(0, 4), (1, 3), (r.range(2, 5), 2)])
+            pieces.append((pre, a, b))
+        if r.chance(1, 3):
+            pieces.append((r.choice([b"m", b"zz"]), r.range(0, 9), r.range(10, 12)))
+        if r.chance(1, 2):
+            pieces = pieces[1:] + pieces[:1] if r.chance(1, 2) else sorted(pieces, key=lambda _x: r.next())
+        words, names = [], []
+        for (q, a, b) in pieces:
+            ww = max(w, 1)
+            if a == b and r.chance(1, 2):
+                words.append(q + hlgen.fmtw(ww, a))
+            else:
+                words.append(q + b"[" + hlgen.fmtw(ww, a) + b"-" + hlgen.fmtw(ww, b) + b"]")
+            names += [q + hlgen.fmtw(ww, n) for n in range(a, b + 1)]
+        if not all(d02(n) for n in names):
+            continue
+        ops = [("push", hexs(b",".join(words)), names), ("uniq", None, None), ("count", None, None), ("iter_new", None, None)]
+        out.append(ops)
+    return out
+
+
 def small_scope(depth):
     """every sequence of up to `depth` calls from a small alphabet (two live iterators, deletions at the ends and in the middle,
     pushes that coalesce or open a new range), on three small lists; sequences leaving a contract are pruned by the reference"""
@@ -725,6 +758,9 @@ def run(ctx):
     for name, ops in directed():
         hist.append(ops)
         tags.append("directed:" + name)
+    for ops in uniq_family(ctx.rng("uniq-family"), 300 if quick else 6000):
+        hist.append(ops)
+        tags.append("directed:uniq-family")
     scope = small_scope(3 if quick else 4)
     for ops in scope:
         hist.append(ops)
